@@ -13,6 +13,8 @@ interpreter processes, separate numba cache directories); the serialised outputs
     queries and root box -- F5), mesh hill climbing sequences (returned vertex INDEX and point),
     broad phase worlds, hydroelastic tetrahedron pairs and bodies: everything their workers
     report, structurally, floats at 1e-9 relative.
+Families "intscalar*": scalar sizes (radius, height, length, margin) passed as Python ints / numpy integer scalars (arrays stay
+float64 C-contiguous: the declared domain) with exact axis-permutation poses and exactly axial / exactly zero directions.
 A crash, hang or exception in only one mode is a failure.  A boolean / index mismatch is first
 re-examined at perturbed inputs (see `recheck`); only a mismatch that persists away from the
 decision boundary is a failure, boundary cases are counted.
